@@ -970,3 +970,157 @@ package cose
 //@   ensures err_nil [C12, C20]: err != nil ==> result == nil
 //@   ensures once [C12, C20]: vepoch() == old(vepoch()) || vepoch() == old(vepoch()) + 1
 //@   modifies frame [C18]: nothing
+
+// ===================================================================
+// key.go: typed accessors  (C06, C14, C15)
+//   any_canint / any_intval / any_isbytes / anybytes: the reflect-level view of an interface value
+// ===================================================================
+
+//@ func decodeBytes
+//@   requires hashable: any_hashable(lbl)
+//@   ensures fun [C06, C14, C15]: b == ((lbl in dic && any_isbytes(dic[lbl])) ? anybytes(dic[lbl]) : nil) && (err == nil <==> !(lbl in dic) || any_isbytes(dic[lbl]))
+//@   ensures okflag: ok ==> lbl in dic
+//@   modifies frame [C18]: nothing
+
+//@ func decodeInt
+//@   requires hashable: any_hashable(lbl)
+//@   ensures fun [C06, C14, C15]: result0 == ((lbl in dic && any_canint(dic[lbl])) ? any_intval(dic[lbl]) : 0) && (result2 == nil <==> !(lbl in dic) || any_canint(dic[lbl])) && (result1 <==> lbl in dic)
+//@   modifies frame [C18]: nothing
+
+//@ func decodeSlice
+//@   requires hashable: any_hashable(lbl)
+//@   ensures absent: !(lbl in dic) ==> result0 == nil && result1 == nil
+//@   ensures slice: lbl in dic && dic[lbl] is []any ==> result0 == dic[lbl].([]any) && result1 == nil
+//@   ensures other: lbl in dic && !(dic[lbl] is []any) ==> result0 == nil && result1 != nil
+//@   modifies frame [C18]: nothing
+
+//@ func decodeUint
+//@   requires hashable: any_hashable(lbl)
+//@   modifies frame [C18]: nothing
+
+//@ func decodeString
+//@   requires hashable: any_hashable(lbl)
+//@   modifies frame [C18]: nothing
+
+//@ func decodeBool
+//@   requires hashable: any_hashable(lbl)
+//@   modifies frame [C18]: nothing
+
+// ===================================================================
+// key.go: COSE_Key  (C14, C15, C06)
+// ===================================================================
+
+// what the accessors read from the parameter map (exact int64 labels, as the code looks them up)
+//@ spec pBytes(p map[any]any, l Int) []byte = (int64(l) in p && any_isbytes(p[int64(l)])) ? anybytes(p[int64(l)]) : nil
+//@ spec pCurve(p map[any]any) Curve = (int64(-1) in p && any_canint(p[int64(-1)])) ? any_intval(p[int64(-1)]) : 0
+
+//@ func (*Key).EC2
+//@   requires nonnil: k != nil
+//@   ensures params [C06, C14, C15]: crv == pCurve(k.Params) && x == pBytes(k.Params, -2) && y == pBytes(k.Params, -3) && d == pBytes(k.Params, -4)
+//@   modifies frame [C18]: nothing
+
+//@ func (*Key).OKP
+//@   requires nonnil: k != nil
+//@   ensures params [C06, C14, C15]: crv == pCurve(k.Params) && x == pBytes(k.Params, -2) && d == pBytes(k.Params, -4)
+//@   modifies frame [C18]: nothing
+
+//@ func (*Key).Symmetric
+//@   requires nonnil: key != nil
+//@   ensures params [C06, C15]: k == pBytes(key.Params, -1)
+//@   modifies frame [C18]: nothing
+
+//@ func curveSize
+//@   ensures table [C14, C15]: result == (crv == 1 ? 32 : (crv == 2 ? 48 : (crv == 3 ? 66 : 0)))
+//@   modifies frame [C18]: nothing
+
+// the algorithm fixed by key type and curve (0: none)
+//@ spec algOfCurve(t KeyType, c Curve) Algorithm = t == 2 ? (c == 1 ? -7 : (c == 2 ? -35 : (c == 3 ? -36 : 0))) : ((t == 1 && c == 6) ? -8 : 0)
+
+//@ func (*Key).deriveAlgorithm
+//@   requires nonnil: k != nil
+//@   ensures fun [C06, C14, C15]: (result1 == nil <==> algOfCurve(k.Type, pCurve(k.Params)) != 0) && result0 == algOfCurve(k.Type, pCurve(k.Params))
+//@   modifies frame [C18]: nothing
+
+//@ func (Key).canOp
+//@   ensures iff [C15]: result <==> (k.Ops == nil || (exists i Int :: 0 <= i && i < len(k.Ops) && k.Ops[i] == op))
+//@   modifies frame [C18]: nothing
+//@   loop 1 invariant bounds: 0 <= idx && idx <= len(k.Ops) && k.Ops != nil
+//@   loop 1 invariant none_yet: forall j Int :: 0 <= j && j < idx ==> k.Ops[j] != op
+
+// consistency of an EC2 / OKP key as C15 states it (curve of the right family, coordinates within size, alg matches the curve)
+//@ spec sizeOf(c Curve) Int = c == 1 ? 32 : (c == 2 ? 48 : (c == 3 ? 66 : 0))
+//@ spec keyShapeOK(t KeyType, p map[any]any, alg Algorithm) Bool =
+//@            (t == 2 ==> pCurve(p) != 0 && !(pCurve(p) == 4 || pCurve(p) == 5 || pCurve(p) == 6 || pCurve(p) == 7)
+//@                      && !(len(pBytes(p, -2)) == 0 && len(pBytes(p, -3)) == 0 && len(pBytes(p, -4)) == 0)
+//@                      && (sizeOf(pCurve(p)) > 0 ==> len(pBytes(p, -2)) <= sizeOf(pCurve(p)) && len(pBytes(p, -3)) <= sizeOf(pCurve(p)) && len(pBytes(p, -4)) <= sizeOf(pCurve(p))))
+//@         && (t == 1 ==> pCurve(p) != 0 && !(pCurve(p) == 1 || pCurve(p) == 2 || pCurve(p) == 3) && !(len(pBytes(p, -2)) == 0 && len(pBytes(p, -4)) == 0)
+//@                      && (len(pBytes(p, -2)) > 0 ==> len(pBytes(p, -2)) == 32) && (len(pBytes(p, -4)) > 0 ==> len(pBytes(p, -4)) == 32))
+//@         && (t == 4 ==> len(pBytes(p, -1)) > 0)
+//@         && (alg != 0 ==> algOfCurve(t, pCurve(p)) == alg)
+
+//@ func (Key).validate
+//@   ensures shape [C06, C14, C15]: result == nil ==> k.Type != 0 && keyShapeOK(k.Type, k.Params, k.Algorithm)
+//@   ensures op_sign [C06, C15]: result == nil && op == 1 && (k.Type == 2 || k.Type == 1) ==> len(pBytes(k.Params, -4)) > 0
+//@   ensures op_verify [C06, C15]: result == nil && op == 2 ==> (k.Type == 2 ==> len(pBytes(k.Params, -2)) > 0 && len(pBytes(k.Params, -3)) > 0) && (k.Type == 1 ==> len(pBytes(k.Params, -2)) > 0)
+//@   modifies frame [C18]: nothing
+
+//@ func algorithmFromEllipticCurve
+//@   ensures table [C14]: result == (c == curve_p256 ? -7 : (c == curve_p384 ? -35 : (c == curve_p521 ? -36 : 0)))
+//@   modifies frame [C18]: nothing
+
+//@ func (*Key).AlgorithmOrDefault
+//@   requires nonnil: k != nil
+//@   ensures fun [C14, C15]: (k.Algorithm != 0 ==> result0 == k.Algorithm && result1 == nil)
+//@         && (k.Algorithm == 0 ==> result0 == algOfCurve(k.Type, pCurve(k.Params)) && (result1 == nil <==> algOfCurve(k.Type, pCurve(k.Params)) != 0))
+//@   modifies frame [C18]: nothing
+
+//@ func (*Key).PublicKey
+//@   requires nonnil: k != nil
+//@   ensures ok [C06, C14, C15]: result1 == nil ==> keyShapeOK(k.Type, k.Params, k.Algorithm) && algOfCurve(k.Type, pCurve(k.Params)) != 0
+//@         && (k.Type == 2 ==> len(pBytes(k.Params, -2)) > 0 && len(pBytes(k.Params, -3)) > 0)
+//@         && (k.Type == 2 ==> result0 is *ecdsa.PublicKey && result0.(*ecdsa.PublicKey) != nil && fresh(result0.(*ecdsa.PublicKey))
+//@               && result0.(*ecdsa.PublicKey).X != nil && result0.(*ecdsa.PublicKey).Y != nil
+//@               && bigval(result0.(*ecdsa.PublicKey).X) == be(bytes(pBytes(k.Params, -2))) && bigval(result0.(*ecdsa.PublicKey).Y) == be(bytes(pBytes(k.Params, -3)))
+//@               && result0.(*ecdsa.PublicKey).Curve == (pCurve(k.Params) == 1 ? curve_p256 : (pCurve(k.Params) == 2 ? curve_p384 : curve_p521)))
+//@         && (k.Type == 1 ==> result0 is ed25519.PublicKey && result0.(ed25519.PublicKey) == pBytes(k.Params, -2) && len(pBytes(k.Params, -2)) == 32)
+//@   ensures err_nil: result1 != nil ==> result0 == nil
+//@   modifies frame [C18]: nothing
+
+//@ func (*Key).PrivateKey
+//@   requires nonnil: k != nil
+//@   ensures ok [C06, C14, C15]: result1 == nil ==> keyShapeOK(k.Type, k.Params, k.Algorithm) && algOfCurve(k.Type, pCurve(k.Params)) != 0 && len(pBytes(k.Params, -4)) > 0
+//@         && (k.Type == 2 ==> result0 is *ecdsa.PrivateKey && result0.(*ecdsa.PrivateKey) != nil && fresh(result0.(*ecdsa.PrivateKey))
+//@               && len(pBytes(k.Params, -2)) > 0 && len(pBytes(k.Params, -3)) > 0
+//@               && result0.(*ecdsa.PrivateKey).D != nil && result0.(*ecdsa.PrivateKey).PublicKey.X != nil && result0.(*ecdsa.PrivateKey).PublicKey.Y != nil
+//@               && bigval(result0.(*ecdsa.PrivateKey).D) == be(bytes(pBytes(k.Params, -4)))
+//@               && bigval(result0.(*ecdsa.PrivateKey).PublicKey.X) == be(bytes(pBytes(k.Params, -2))) && bigval(result0.(*ecdsa.PrivateKey).PublicKey.Y) == be(bytes(pBytes(k.Params, -3)))
+//@               && result0.(*ecdsa.PrivateKey).PublicKey.Curve == (pCurve(k.Params) == 1 ? curve_p256 : (pCurve(k.Params) == 2 ? curve_p384 : curve_p521)))
+//@         && (k.Type == 1 ==> result0 is ed25519.PrivateKey && len(result0.(ed25519.PrivateKey)) == 64 && len(pBytes(k.Params, -4)) == 32
+//@               && bytes(result0.(ed25519.PrivateKey)[:32]) == bytes(pBytes(k.Params, -4))
+//@               && (len(pBytes(k.Params, -2)) > 0 ==> bytes(result0.(ed25519.PrivateKey)[32:]) == bytes(pBytes(k.Params, -2))))
+//@   ensures err_nil: result1 != nil ==> result0 == nil
+//@   modifies frame [C18]: nothing
+
+//@ func (*Key).Signer
+//@   requires nonnil: k != nil
+//@   ensures ok [C06, C14, C15]: result1 == nil ==> result0 != nil && (k.Ops == nil || (exists i Int :: 0 <= i && i < len(k.Ops) && k.Ops[i] == 1))
+//@         && len(pBytes(k.Params, -4)) > 0 && (k.Type == 2 || k.Type == 1) && algOfCurve(k.Type, pCurve(k.Params)) != 0
+//@         && (k.Algorithm == 0 || k.Algorithm == algOfCurve(k.Type, pCurve(k.Params)))
+//@         && (k.Type == 2 ==> result0 is *ecdsaKeySigner && result0.(*ecdsaKeySigner) != nil && result0.(*ecdsaKeySigner).alg == algOfCurve(k.Type, pCurve(k.Params))
+//@               && result0.(*ecdsaKeySigner).key != nil && result0.(*ecdsaKeySigner).key.PublicKey.Curve != nil)
+//@         && (k.Type == 1 ==> result0 is *ed25519Signer && result0.(*ed25519Signer) != nil && result0.(*ed25519Signer).key != nil)
+//@   ensures refused [C15]: (k.Ops != nil && !(exists i Int :: 0 <= i && i < len(k.Ops) && k.Ops[i] == 1)) ==> result1 == ErrOpNotSupported
+//@   ensures err_nil: result1 != nil ==> result0 == nil
+//@   modifies frame [C18]: nothing
+
+//@ func (*Key).Verifier
+//@   requires nonnil: k != nil
+//@   ensures ok [C06, C14, C15]: result1 == nil ==> result0 != nil && (k.Ops == nil || (exists i Int :: 0 <= i && i < len(k.Ops) && k.Ops[i] == 2))
+//@         && len(pBytes(k.Params, -2)) > 0 && (k.Type == 2 || k.Type == 1) && algOfCurve(k.Type, pCurve(k.Params)) != 0
+//@         && (k.Algorithm == 0 || k.Algorithm == algOfCurve(k.Type, pCurve(k.Params)))
+//@         && (k.Type == 2 ==> len(pBytes(k.Params, -3)) > 0 && result0 is *ecdsaVerifier && result0.(*ecdsaVerifier) != nil && result0.(*ecdsaVerifier).alg == algOfCurve(k.Type, pCurve(k.Params))
+//@               && result0.(*ecdsaVerifier).key != nil && result0.(*ecdsaVerifier).key.Curve != nil)
+//@         && (k.Type == 1 ==> result0 is *ed25519Verifier && result0.(*ed25519Verifier) != nil && len(result0.(*ed25519Verifier).key) == 32)
+//@   ensures refused [C15]: (k.Ops != nil && !(exists i Int :: 0 <= i && i < len(k.Ops) && k.Ops[i] == 2)) ==> result1 == ErrOpNotSupported
+//@   ensures err_nil: result1 != nil ==> result0 == nil
+//@   modifies frame [C18]: nothing
